@@ -3,7 +3,7 @@
 From Coq Require Import ZArith List Bool Lia.
 Import ListNotations.
 From Coq Require Import QArith Reals.
-From Osmo Require Import Base.DecModel C04.Common C04.Lp C04.MathLib C04.Balancer C04.Stableswap C04.ProofsLp C04.ProofsPools C04.ProofsBalancer C04.ProofsBalancerReal C04.ProofsStable Gen.C04_consts.
+From Osmo Require Import Base.DecModel C04.Common C04.Lp C04.MathLib C04.Balancer C04.Stableswap C04.ProofsLp C04.ProofsPools C04.ProofsBalancer C04.ProofsBalancerReal C04.ProofsStable C04.BridgeC13 Gen.C04_consts.
 Open Scope Z_scope.
 
 (* ------------------------------------------------------------------------------------------
@@ -165,7 +165,8 @@ Print Assumptions C04_value_monotone_abstract.
 
 (* PARTIAL (value function of the weighted pool under an exact-in swap).  Hypotheses, all explicit:
    - [pow_accurate]: on the base range [1/2, 1] the computed power is not below the true power of its 18-decimal operands by
-     more than eps (the documented precision; C13's finding F4 shows it fails for smaller bases - and this tree lets them occur);
+     more than eps (the documented precision; C13's finding F4 shows it fails for smaller bases - and this tree lets them occur), for
+     exponents with an integer part of at most 2^28 (balancer weight ratios are below 2^20);
    - the Pow base of THIS swap lies in [1/2, 1];
    - the 18-decimal rounding of the two operands costs at most the factor (1 - eta) on the power.
    Conclusion: Bin^wi * Bout^wj (all other reserves and the share total are untouched) falls by at most the factor
@@ -173,7 +174,7 @@ Print Assumptions C04_value_monotone_abstract.
    (C13's territory), a bound on eta (it is about (wr + 1) * 10^-18 / y), and the same argument for exact-out swaps and
    single-asset joins / exits (same structure; only the integer cores above are proved for them). *)
 Theorem C04_balancer_swap_value_partial : forall eps : R,
-  (forall b e r : Z, (P18 / 2 <= b <= P18)%Z -> (0 <= e)%Z -> pow b e = Ok r ->
+  (forall b e r : Z, (P18 / 2 <= b <= P18)%Z -> (0 <= e)%Z -> (Z.quot e P18 <= 2 ^ 28)%Z -> pow b e = Ok r ->
      Rpower (IZR b / D18) (IZR e / D18) - eps <= IZR r / D18)%R ->
   forall (p : bpool) (i j : nat) (a fee out : Z) (eta : R),
   b_calc_out_given_in p i j a fee = Ok out ->
@@ -186,7 +187,7 @@ Theorem C04_balancer_swap_value_partial : forall eps : R,
   let wrd := d_quo (dec_of_int (nthZ (b_w p) i)) (dec_of_int (nthZ (b_w p) j)) in
   let pt := Rpower (Bi / (Bi + a')) (wi / wj) in
   (0 < Bi)%R -> (0 < Bj)%R -> (0 <= IZR a)%R -> (0 < wi)%R -> (0 < wj)%R -> (0 <= IZR fee / D18 <= 1)%R ->
-  (P18 / 2 <= yd <= P18)%Z -> (0 <= wrd)%Z ->
+  (P18 / 2 <= yd <= P18)%Z -> (0 <= wrd)%Z -> (Z.quot wrd P18 <= 2 ^ 28)%Z ->
   (pt * (1 - eta) <= Rpower (IZR yd / D18) (IZR wrd / D18))%R ->
   (0 <= eta + eps / pt < 1)%R ->
   (Rpower Bi wi * Rpower Bj wj * Rpower (1 - (eta + eps / pt)) wj <= Rpower (Bi + IZR a) wi * Rpower (Bj - IZR out) wj)%R.
@@ -199,7 +200,7 @@ Print Assumptions C04_balancer_swap_value_partial.
    Conclusion: B^nw / S - the joined asset's contribution to the value per share, nothing else changes - falls by at most the
    factor 1 / (1 + eta + eps / y^nw), y = (B + a) / B. *)
 Theorem C04_balancer_single_join_value_partial : forall eps : R, (0 <= eps)%R ->
-  (forall b e r : Z, (P18 <= b < 2 * P18)%Z -> (0 <= e)%Z -> pow b e = Ok r ->
+  (forall b e r : Z, (P18 <= b < 2 * P18)%Z -> (0 <= e < P18)%Z -> pow b e = Ok r ->
      IZR r / D18 <= Rpower (IZR b / D18) (IZR e / D18) + eps)%R ->
   forall (p : bpool) (bal w a fee ts s : Z) (eta : R),
   b_calc_single_asset_join p bal w a fee ts = Ok s ->
@@ -209,11 +210,78 @@ Theorem C04_balancer_single_join_value_partial : forall eps : R, (0 <= eps)%R ->
   let B := IZR bal in let S := IZR ts in let nw := (IZR nwd / D18)%R in
   let pt := Rpower ((B + IZR a) / B) nw in
   (0 < B)%R -> (0 <= IZR a)%R -> (0 < nw)%R -> (0 < S)%R -> (0 <= s)%Z ->
-  (P18 <= yd < 2 * P18)%Z -> (0 <= nwd)%Z ->
+  (P18 <= yd < 2 * P18)%Z -> (0 <= nwd < P18)%Z ->
   (Rpower (IZR yd / D18) nw <= pt * (1 + eta))%R -> (0 <= eta)%R ->
   (Rpower B nw / S <= (1 + (eta + eps / pt)) * (Rpower (B + IZR a) nw / (S + IZR s)))%R.
 Proof. exact single_join_value_partial. Qed.
 Print Assumptions C04_balancer_single_join_value_partial.
+
+(* ---- with C13's PROVED Pow bounds (C04/BridgeC13.v: the C04 copies of Pow / PowApprox / ApproxSqrt compute what C13's models
+   compute, so C13_pow_bound / C13_pow_approx_bound apply): no hypothesis about Pow is left on the base range [1/2, 2) ---- *)
+
+(* the C04 copy of Pow returns what C13's model returns *)
+Theorem C04_pow_is_C13_pow : forall base exp r,
+  P18 <= 2 * base -> base < 2 * P18 -> 0 <= exp -> pow base exp = Ok r -> C13.Pow.pow base exp = C13.Common.Ok r.
+Proof. exact pow_agree. Qed.
+Print Assumptions C04_pow_is_C13_pow.
+
+(* Pow accuracy as the pool math uses it: exponent below 1 (normalised weights) on bases in [1/2, 2): 1e-8 + 1e-12;
+   any exponent with integer part <= 2^28 (weight ratios) on bases in [1/2, 1]: eps_swap = 1e-8 + 1e-12 + 5*2^28*1e-18 + 0.5e-18 *)
+Theorem C04_pow_accuracy : forall b e r, pow b e = Ok r ->
+  ((P18 <= 2 * b)%Z -> (b < 2 * P18)%Z -> (0 <= e < P18)%Z ->
+     Rabs (IZR r / D18 - Rpower (IZR b / D18) (IZR e / D18)) <= eps_frac)%R /\
+  ((P18 <= 2 * b)%Z -> (b <= P18)%Z -> (0 <= e)%Z -> (Z.quot e P18 <= 2 ^ 28)%Z ->
+     Rabs (IZR r / D18 - Rpower (IZR b / D18) (IZR e / D18)) <= eps_swap)%R.
+Proof.
+  intros b e r H. split; intros; [apply c04_pow_frac_bound|apply c04_pow_le_one_bound]; assumption.
+Qed.
+Print Assumptions C04_pow_accuracy.
+
+(* exact-in swap with Pow base in [1/2, 1] (i.e. the tokens in, after the spread factor, do not exceed the in-reserve):
+   |out - Bout (1 - y^wr)| <= eps_swap * Bout + 1 on the 18-decimal operands y, wr *)
+Theorem C04_balancer_swap_out_formula_error_on_half_to_one : forall p i j a fee out,
+  b_calc_out_given_in p i j a fee = Ok out -> (0 <= nthZ (b_res p) j)%Z ->
+  let y := d_quo (dec_of_int (nthZ (b_res p) i)) (d_mul (dec_of_int a) (P18 - fee) + dec_of_int (nthZ (b_res p) i)) in
+  let wr := d_quo (dec_of_int (nthZ (b_w p) i)) (dec_of_int (nthZ (b_w p) j)) in
+  (P18 / 2 <= y <= P18)%Z -> (0 <= wr)%Z -> (Z.quot wr P18 <= 2 ^ 28)%Z ->
+  (Rabs (IZR out - IZR (nthZ (b_res p) j) * (1 - Rpower (IZR y / D18) (IZR wr / D18))) <= eps_swap * IZR (nthZ (b_res p) j) + 1)%R.
+Proof. exact swap_out_formula_error_on_half_to_one. Qed.
+Print Assumptions C04_balancer_swap_out_formula_error_on_half_to_one.
+
+(* value function under an exact-in swap with Pow base in [1/2, 1]: Bin^wi * Bout^wj falls by at most the factor
+   (1 - (eta + eps_swap / y^(wi/wj)))^wj; the only premise left besides the ranges is the factor (1 - eta) that rounding the two
+   operands to 18 decimals costs on the power (about (wr + 1) * 1e-18 / y; not bounded in Coq) *)
+Theorem C04_balancer_swap_value_on_half_to_one : forall p i j a fee out (eta : R),
+  b_calc_out_given_in p i j a fee = Ok out ->
+  let Bi := IZR (nthZ (b_res p) i) in let Bj := IZR (nthZ (b_res p) j) in
+  let wi := IZR (nthZ (b_w p) i) in let wj := IZR (nthZ (b_w p) j) in
+  let a' := (IZR a * (1 - IZR fee / D18))%R in
+  let yd := d_quo (dec_of_int (nthZ (b_res p) i)) (d_mul (dec_of_int a) (P18 - fee) + dec_of_int (nthZ (b_res p) i)) in
+  let wrd := d_quo (dec_of_int (nthZ (b_w p) i)) (dec_of_int (nthZ (b_w p) j)) in
+  let pt := Rpower (Bi / (Bi + a')) (wi / wj) in
+  (0 < Bi)%R -> (0 < Bj)%R -> (0 <= IZR a)%R -> (0 < wi)%R -> (0 < wj)%R -> (0 <= IZR fee / D18 <= 1)%R ->
+  (P18 / 2 <= yd <= P18)%Z -> (0 <= wrd)%Z -> (Z.quot wrd P18 <= 2 ^ 28)%Z ->
+  (pt * (1 - eta) <= Rpower (IZR yd / D18) (IZR wrd / D18))%R ->
+  (0 <= eta + eps_swap / pt < 1)%R ->
+  (Rpower Bi wi * Rpower Bj wj * Rpower (1 - (eta + eps_swap / pt)) wj <= Rpower (Bi + IZR a) wi * Rpower (Bj - IZR out) wj)%R.
+Proof. exact swap_value_on_half_to_one. Qed.
+Print Assumptions C04_balancer_swap_value_on_half_to_one.
+
+(* single-asset join with Pow base in [1, 2) (the tokens in do not exceed the reserve): B^nw / S falls by at most the factor
+   1 / (1 + eta + eps_frac / y^nw) *)
+Theorem C04_balancer_single_join_value_on_one_to_two : forall (p : bpool) (bal w a fee ts s : Z) (eta : R),
+  b_calc_single_asset_join p bal w a fee ts = Ok s ->
+  let nwd := d_quo (dec_of_int w) (dec_of_int (b_total_weight p)) in
+  forall fr : Z, fee_ratio nwd fee = Ok fr ->
+  let yd := d_quo (dec_of_int bal + d_mul (dec_of_int a) fr) (dec_of_int bal) in
+  let B := IZR bal in let S := IZR ts in let nw := (IZR nwd / D18)%R in
+  let pt := Rpower ((B + IZR a) / B) nw in
+  (0 < B)%R -> (0 <= IZR a)%R -> (0 < nw)%R -> (0 < S)%R -> (0 <= s)%Z ->
+  (P18 <= yd < 2 * P18)%Z -> (0 <= nwd < P18)%Z ->
+  (Rpower (IZR yd / D18) nw <= pt * (1 + eta))%R -> (0 <= eta)%R ->
+  (Rpower B nw / S <= (1 + (eta + eps_frac / pt)) * (Rpower (B + IZR a) nw / (S + IZR s)))%R.
+Proof. exact single_join_value_on_one_to_two. Qed.
+Print Assumptions C04_balancer_single_join_value_on_one_to_two.
 
 (* The full statement for balancer pools - "within the documented power precision for every trade size up to the solver's
    domain limit" - is FALSE of the faithful model, because this tree has no MaxInRatio / MaxOutRatio guard and Pow is used
